@@ -28,7 +28,17 @@ PROP = {
                    "returns is the fault-free model's result (also for node merges that pvRebalance's catch(...) swallowed: same sequence, well-formed). The documented "
                    "exception 5 (Remove with key and value both not nothrow-anyway-assignable) is a hypothesis of the removal theorem and a kernel-checked witness shows it is "
                    "needed. The layer is tied to the code by c04_treefault: the model predicts threw / result, complete contents, complete node shape and the ledger "
-                   "(pool counters, element objects, memory-manager blocks) after every operation run with its k-th comparison / allocation / construction / assignment failing."),
+                   "(pool counters, element objects, memory-manager blocks) after every operation run with its k-th comparison / allocation / construction / assignment failing. "
+                   "Hash family WITH the ledger (Momo.HTL, the ledger layer over the C01 / C11 model described under C03): for every bucket description, relocation "
+                   "category, hash function, container state with well-formed books, item, creator and fault record, a failing Add / AddVar / AddCrt (C04_hash_add_strong), "
+                   "Insert / emplace / map insertion / subscript insertion / Insert(ExtractedItem&&) incl. a throwing hash or equality functor in the lookup "
+                   "(C04_hash_insert_strong), Remove (C04_hash_remove_strong: not a single event), Extract (C04_hash_extract_strong), Reserve (C04_hash_reserve_strong) returns "
+                   "the SAME container - table, books of blocks and of element objects - and a ledger on which the verified monitor holds exactly the blocks and element "
+                   "objects it held; a failing default / copy constructor leaves the ledger exactly as it was, an empty one empty (C04_hash_constructor_clean), a failing copy "
+                   "assignment leaves both containers and the handle as they were (C04_hash_copy_assign_strong); after a failed insertion the books stay consistent with the "
+                   "table and the same insertion retried without fault succeeds with the fault-free model's table (C04_hash_usable_after); the tables are those of C11's add / "
+                   "reserve under the faults the record stands for (C04_hash_tables_are_model); the only manager blocks a failing operation may keep are pool buffers of the "
+                   "chained kinds, booked as St.bufs and given back by Clear / destruction (C04_hash_pool_traffic). Tied to the code by c03_htledger (see C03)."),
     "level_note": ("Trusted: Lean kernel + standard axioms, harness (g++, ASan/UBSan, -fno-access-control). The sweep covers every k for each reached "
                    "operation instance, but the instances (container kind, size, element category) are a finite chosen set. Documented exceptions "
                    "(HashMap.h items 4, 5: Key&& argument may change; Remove/Extract with key and value both not nothrow-anyway-assignable) are "
@@ -50,6 +60,17 @@ PROP = {
         "Momo.BTreeF.C04_tree_remove_strong",
         "Momo.BTreeF.C04_tree_copy_strong",
         "Momo.BTreeF.C04_tree_usable_after",
+        "Momo.HTL.C04_hash_add_strong",
+        "Momo.HTL.C04_hash_insert_strong",
+        "Momo.HTL.C04_hash_creators",
+        "Momo.HTL.C04_hash_remove_strong",
+        "Momo.HTL.C04_hash_extract_strong",
+        "Momo.HTL.C04_hash_reserve_strong",
+        "Momo.HTL.C04_hash_constructor_clean",
+        "Momo.HTL.C04_hash_copy_assign_strong",
+        "Momo.HTL.C04_hash_usable_after",
+        "Momo.HTL.C04_hash_tables_are_model",
+        "Momo.HTL.C04_hash_pool_traffic",
     ],
     "harnesses": [
         {"name": "c04_strong", "src": "c04_strong.cpp", "sanitize": "asan", "timeout_quick": 600},
@@ -63,6 +84,10 @@ PROP = {
     ] + [
         {"name": "c04_treefault_%d" % k, "src": "c04_treefault.cpp", "sanitize": "asan", "flags": ["-DTF_PART=%d" % k], "timeout_quick": 600}
         for k in range(1, 6)
+    ] + [
+        {"name": "c03_htledger_open", "src": "c03_htledger.cpp", "sanitize": "asan", "flags": ["-DVF_PART=0"], "timeout_quick": 600},
+        {"name": "c03_htledger_open2", "src": "c03_htledger.cpp", "sanitize": "asan", "flags": ["-DVF_PART=1"], "timeout_quick": 600},
+        {"name": "c03_htledger_chain", "src": "c03_htledger.cpp", "sanitize": "asan", "flags": ["-DVF_PART=2"], "timeout_quick": 600},
     ],
     "rule": ("(a) RelocateCreate on ElemNM (nothrow-move) and ElemCO (copy-only, throwing) for count 0..5 x every failing step (model-level lines); "
              "(b) sweeps: Array / ArrayIntCap<3> / SegmentedArray(sqrt, cnst) AddBack (const&, &&, aliasing own element), SetCount, Reserve, Shrink, "
@@ -86,9 +111,14 @@ PROP = {
              "assignable (documented exception 5; assignment faults on Remove only); all with ExtraCheckMode::nothing. Random histories on 4 containers + one node "
              "handle: insert, hinted add, remove by iterator / key, extract, re-insert, hinted re-insert, range insert, remove-if, merge (incl. ordered ranges for "
              "pvMergeFast and empty destinations), copy assignment, clear. Each operation runs without fault (2/5), with one random (kind, k), or - strong "
-             "operations - swept k = 0,1,2,... until it succeeds. distinct_nontrivial there = distinct (configuration, operation, fault kind, k) that raised."),
+             "operations - swept k = 0,1,2,... until it succeeds. distinct_nontrivial there = distinct (configuration, operation, fault kind, k) that raised. "
+             "(e) c03_htledger (model level, engine htledger; described under C03): every insertion / re-insertion / removal / extraction / Reserve / copy assignment "
+             "that exits with an exception is also checked by the property's own oracle - count, outstanding blocks (kinds without pools), live element objects and "
+             "the handle as before."),
     "runtime_only": ["ASan/UBSan on every sweep", "memory-manager ledger and element counters after every failure and after destruction"],
-    "not_modelled": ["B-trees (Momo.BTreeF): the memory pools between Node::Create and the memory manager (a node creation is one fallible step; exact for pools with one "
+    "not_modelled": ["hash family (Momo.HTL): see C03 (pool buffers abstract, bucket-internal relocation of the chained kinds not booked); a throwing assignment of Replace is assumed to leave its operands unchanged; "
+                     "the documented exceptions of HashMap.h (items 4, 5) are not in the model",
+                     "B-trees (Momo.BTreeF): the memory pools between Node::Create and the memory manager (a node creation is one fallible step; exact for pools with one "
                      "block per buffer, which the model-level run uses; for TreeNode<>'s default pools allocation faults are swept at property level only); Remove(begin, end) and "
                      "Remove(key) of a multi-key container under faults (Replace inside pvRemoveRange), ResetKey, initializer-list / range constructors, the Key&& overloads "
                      "(documented exception 4), stdish wrappers; node releases of a successful removal / fast merge are booked as the difference of the node counts; a throwing "
